@@ -47,9 +47,11 @@ def native_replay_():
     bad = []
     try:
         open(os.path.join(d, "lib.gdn"), "w").write(
-            "public fun pubf(): Int { privf() + 1 }\nfun privf(): Int { 41 }\npublic fun pubg(): Int { 2 }\n")
+            "public fun pubf(): Int { privf() + 1 }\nfun privf(): Int { 41 }\npublic fun pubg(): Int { 2 }\n"
+            "enum Color { Red, Green }\n")
         cases = [("m::pubf()", False), ("m::privf()", True), ("m::nosuch()", True), ("m::pubg()", False),
-                 ("m::pubf() + m::privf()", True), ("m::privf() + m::pubf()", True)]
+                 ("m::pubf() + m::privf()", True), ("m::privf() + m::pubf()", True),
+                 ("m::Red", True)]      # a private item that is not a function (an enum variant value)
         for call, want_error in cases:
             for wrap in ("println(string_repr({}))\n", "fun user(): Int {{ {} }}\nuser()\n"):
                 main = 'import "./lib.gdn" as m\n' + wrap.format(call)
@@ -66,7 +68,7 @@ def native_replay_():
                     bad.append({"main": main, "want_visibility_error": want_error, "out": txt[:300]})
     finally:
         shutil.rmtree(d, ignore_errors=True)
-    return {"reproduced": bool(bad), "artefact": bad[:2], "detail": f"{len(bad)} of 12 `garden check` visibility probes disagree"}
+    return {"reproduced": bool(bad), "artefact": bad[:2], "detail": f"{len(bad)} of 14 `garden check` visibility probes disagree"}
 
 
 def run_access(ctx, P, names):
@@ -243,4 +245,4 @@ def run_checker_kernel(C, P):
     if rep["reproduced"]:
         C.validation_mismatch(f"`garden check` visibility probes fail on the unchanged tree: {rep['artefact']}")
     else:
-        C.validated_against_impl(12)
+        C.validated_against_impl(14)
